@@ -189,3 +189,25 @@ func totalLoopFF(ff *FuncFacts, loop map[*ssa.BasicBlock]bool) (bool, string) {
 	}
 	return true, ""
 }
+
+
+// handOverSites: the places where fn hands a payload to the transport — calls of
+// sideEffectActor.deliverToRecipients, or Transport.BatchDeliver calls written in fn itself
+// (the helper inlined).
+func handOverSites(E *Effects, fn *ssa.Function) []ssa.CallInstruction {
+	out := findCalls(E, fn, "sideEffectActor.deliverToRecipients")
+	out = append(out, findCalls(E, fn, "Transport.BatchDeliver")...)
+	return out
+}
+
+// optionalFuncs: of the named functions, those that exist on this tree. A helper the rules
+// know by name that was inlined into its callers is analysed there.
+func optionalFuncs(p *Pub, names []string) []string {
+	var out []string
+	for _, n := range names {
+		if p.HasFunc(n) {
+			out = append(out, n)
+		}
+	}
+	return out
+}
